@@ -15,7 +15,7 @@ class H:
     """A Kani harness = one contract obligation on a real function."""
 
     def __init__(self, name, functions, kind='proof', bound=None, features='', tier='quick',
-                 timeout=600, note=''):
+                 timeout=1200, note=''):
         self.name = name
         self.functions = functions      # the /repo functions under contract
         self.kind = kind                # proof | bounded | gc
